@@ -5,7 +5,7 @@ from impl import np, de, I, fbits, flist
 ID = "C19"
 LEAN_TARGETS = ["DVP.Properties.C19"]
 PROPERTY_FILES = ["DVP/Properties/C19.lean"]
-RULE = ("recorded grids of real runs (uniform, adaptive, forward, backward, continued by a second call): every integer index in "
+RULE = ("recorded grids of real runs (uniform, adaptive, forward, backward, continued by a second call, run against the constructor's span): every integer index in "
         "[-len-2, len+2] as int and as numpy integer, iteration, seeded query times inside / outside / on samples / midway, time slices "
         "(whole run, interior, open ended), with and without dense output - implementation vs the Lean lookup model (bit-exact floats) and "
         "vs the property (nearest sample by brute force, dense value). non-trivial = grid with >= 4 samples; distinct by (grid, query)")
@@ -17,15 +17,20 @@ def grids(ctx, rng):
     for name in ["RK4Solver", "RK45CKSolver", "EulerSolver"]:
         for (t0, tf) in [(0.0, 1.0), (1.0, 0.0), (-2.0, -0.5), (0.5, -1.5), (3.0, 4.0)]:
             for dense in (False, True):
-                for cont in (False, True):
+                for cont in (False, True, "against-span"):
                     if ctx.quick() and rng.random() < 0.5:
                         continue
                     dt = abs(tf - t0) / rng.choice([4, 7, 12])
                     o = de.OdeSystem(lambda t, y: np.array([y[1], -y[0]]), y0=np.array([1.0, 0.0]), t=(t0, tf), dt=dt, dense_output=dense, rtol=1e-6, atol=1e-8)
                     o.set_method(getattr(I, name))
-                    if cont:
-                        o.integrate(t0 + (tf - t0) * 0.4)
-                    o.integrate()
+                    if cont == "against-span":
+                        # the run goes the other way than the span given to the constructor (in two calls)
+                        o.integrate(t0 - (tf - t0) * 0.3)
+                        o.integrate(t0 - (tf - t0) * 0.8)
+                    else:
+                        if cont:
+                            o.integrate(t0 + (tf - t0) * 0.4)
+                        o.integrate()
                     out.append((name, t0, tf, dense, cont, o))
     return out
 
@@ -60,8 +65,8 @@ def run(ctx):
         lines.append("lookup iter %d" % n)
         checks.append(("iteration", ",".join(str(k) for k in range(n)), dict(base), None))
         # query times
-        qs = [float(x) for x in t[:3]] + [float(0.5 * (a + b)) for a, b in zip(t[:3], t[1:4])] + [t0 - (tf - t0) * 0.3, tf + (tf - t0) * 0.3]
-        qs += [rng.uniform(min(t0, tf), max(t0, tf)) for _ in range(6)]
+        qs = [float(x) for x in t[:3]] + [float(0.5 * (a + b)) for a, b in zip(t[:3], t[1:4])] + [float(t[0] - (t[-1] - t[0]) * 0.3), float(t[-1] + (t[-1] - t[0]) * 0.3)]
+        qs += [rng.uniform(float(min(t)), float(max(t))) for _ in range(6)]
         for qv in qs:
             qv = float(qv)
             r = o[qv]
@@ -87,7 +92,7 @@ def run(ctx):
             i0 = int(np.where(t == s.t[0])[0][0]) if len(s.t) else None
             lines.append("lookup slice %s %s %s" % ("-" if a is None else fbits(a), "-" if b is None else fbits(b), flist(t)))
             checks.append(("slice", "%s %s" % (i0, (i0 + len(s.t)) if i0 is not None else None), dict(base, start=a, stop=b), None))
-        ctx.count("grid:%s:%s%s" % ("bwd" if tf < t0 else "fwd", "dense" if dense else "plain", ":continued" if cont else ""))
+        ctx.count("grid:%s:%s%s" % ("bwd" if tf < t0 else "fwd", "dense" if dense else "plain", ":continued" if cont is True else (":against-span" if cont else "")))
     outs = ctx.driver(lines)
     for (kind, impl_res, inp, want), o in zip(checks, outs):
         if kind == "slice" and impl_res.startswith("None"):
